@@ -444,6 +444,15 @@ func degreeRun(t *vk.T, proto string, pos, n, th, delta int) (outs []fx.Outcome,
 		return nil, C, "", false
 	}
 	n2.Party(C).Corrupt = true
+	if applied && !strings.HasPrefix(proto, "cmp-") {
+		// the cheater's polynomial has been sampled (first Finalize, inside the constructor); from here on it follows
+		// the protocol with the agreed threshold again, so that it keeps talking
+		if rv, _ := roundOf(n2.Party(C).H); rv.IsValid() {
+			if fv, uerr := fx.Unexported(rv, "threshold"); uerr == nil && fv.Kind() == reflect.Int {
+				fv.SetInt(int64(th))
+			}
+		}
+	}
 	n2.OnDeliver = func(_ *sim.Net, d *sim.Delivery) []*sim.Delivery {
 		if d.Round == 0 {
 			return nil
